@@ -59,6 +59,28 @@ CHECKS = {
         "Trusts CPython as reference and the canonical-value comparison; functions compare as "
         "'callable' (observed through calls). Host 3.12 only in the quick tier.",
         "DESIGN.md section 3, C01"),
+    "C02": (
+        "Hypothesis-generated programs (+ injected out-of-fragment variants) and the stripped "
+        "standard-library corpus x 8 configurations; validity predicate on the output "
+        "(no line break, compiles in eval mode, parses as exactly one expression)",
+        "Whenever convert_code_string returns, the text is checked to be a single-line, compilable "
+        "expression; inputs come from the whole-program generator, from the same programs with "
+        "unsupported / illegally placed constructs injected at random positions (inputs the "
+        "converter may accept or reject), and from ~550 standard-library modules with unsupported "
+        "statements stripped. Rejections are counted, never failures. Nothing is executed.",
+        "RecursionError/MemoryError when compiling a huge output is treated as a size limit (C17).",
+        "DESIGN.md section 3, C02"),
+    "C08": (
+        "exhaustive injection of every unsupported / illegally placed construct at every statement "
+        "position (and wrapped around expression nodes) of a fixed rich base program and of "
+        "Hypothesis-drawn programs; oracle: conversion must raise",
+        "For each base program every index of every statement list at every depth receives each of "
+        "14 unsupported statement kinds and the illegal break/continue/return placements; expression "
+        "nodes are wrapped in yield / yield from / await / async comprehensions; every tuple/list "
+        "target receives a second star. convert_code_string must raise for all 8 (fixed base, "
+        "thorough) or 2 rotating configurations. Exhaustive per base program; bases are sampled.",
+        "Any Exception is a rejection; ast.unparse is trusted to print the mutated module (re-parsed).",
+        "DESIGN.md section 3, C08"),
     "C10": (
         "Hypothesis rule-based state machine over API histories with a dict model of the option "
         "objects; differential oracle against the same call in a fresh process",
